@@ -315,8 +315,14 @@ func EqOff(a, b *Term) *Term {
 	if a == b {
 		return True
 	}
-	if a.sort == RegionSort && regionMask(a)&regionMask(b) == 0 {
-		return False
+	if a.sort == RegionSort {
+		if regionMask(a)&regionMask(b) == 0 {
+			return False
+		}
+		// values read from the pre-state heap cannot name an allocation made during the call
+		if isPreRegion(a) && isCallAlloc(b) || isPreRegion(b) && isCallAlloc(a) {
+			return False
+		}
 	}
 	if a.sort != BoolSort && !(a.IsConst() && b.IsConst()) {
 		ba, ca := splitOff(a)
@@ -364,4 +370,101 @@ func regionMask(t *Term) uint16 {
 		return regionMask(t.args[1]) | regionMask(t.args[2])
 	}
 	return 0xFFFF
+}
+
+// callAllocBase: region ids above this were allocated during the verified call
+// (ids up to it belong to package initialisation).
+var callAllocBase uint64
+
+func isPreRegion(t *Term) bool {
+	switch t.op {
+	case "uf":
+		return strings.HasPrefix(t.name, "M0.")
+	case "ite":
+		return isPreRegion(t.args[1]) && isPreRegion(t.args[2])
+	case "const":
+		return t.val.Uint64()>>60 != 0xF || t.val.Uint64()&0x0FFFFFFFFFFFFFFF <= callAllocBase
+	}
+	return false
+}
+
+func isCallAlloc(t *Term) bool {
+	return t.op == "const" && t.val.Uint64()>>60 == 0xF && t.val.Uint64()&0x0FFFFFFFFFFFFFFF > callAllocBase
+}
+
+// stripRegions rebuilds a write chain without the writes into the given (dead)
+// regions: stack arrays of a frame that has returned. Source snapshots of copy
+// nodes are kept as they are, so values copied out of a dead array survive.
+func stripRegions(m *Mem, dead map[uint64]bool, minID int, memo map[*Mem]*Mem) *Mem {
+	if m == nil || m.id < minID || m.kind == MBase {
+		return m
+	}
+	if r, ok := memo[m]; ok {
+		return r
+	}
+	isDead := func(t *Term) bool {
+		return t != nil && t.IsConst() && dead[t.val.Uint64()]
+	}
+	var res *Mem
+	switch m.kind {
+	case MWrite:
+		p := stripRegions(m.prev, dead, minID, memo)
+		if len(m.keys) == 2 && isDead(m.keys[0]) {
+			res = p
+		} else if p == m.prev {
+			res = m
+		} else {
+			res = p.Write(m.keys, m.val)
+		}
+	case MCopy:
+		p := stripRegions(m.prev, dead, minID, memo)
+		if isDead(m.region) {
+			res = p
+		} else if p == m.prev {
+			res = m
+		} else {
+			res = p.Copy(m.region, m.dst, m.n, m.src, m.srcRegion, m.srcOff)
+		}
+	case MFill:
+		p := stripRegions(m.prev, dead, minID, memo)
+		if isDead(m.region) {
+			res = p
+		} else if p == m.prev {
+			res = m
+		} else {
+			res = p.Fill(m.region, m.val)
+		}
+	case MHavoc:
+		p := stripRegions(m.prev, dead, minID, memo)
+		if isDead(m.region) {
+			res = p
+		} else if p == m.prev {
+			res = m
+		} else {
+			x := p.derive(MHavoc)
+			x.region, x.lo, x.hi, x.uf = m.region, m.lo, m.hi, m.uf
+			res = internMem(x)
+		}
+	case MHavocRegions, MHavocFresh:
+		p := stripRegions(m.prev, dead, minID, memo)
+		if p == m.prev {
+			res = m
+		} else {
+			x := p.derive(m.kind)
+			x.regions, x.lo, x.uf = m.regions, m.lo, m.uf
+			res = internMem(x)
+		}
+	case MMerge:
+		a := stripRegions(m.a, dead, minID, memo)
+		b := stripRegions(m.b, dead, minID, memo)
+		if a == m.a && b == m.b {
+			res = m
+		} else {
+			res = MergeMem(m.cond, a, b)
+		}
+	default:
+		res = m
+	}
+	memo[m] = res
+	return res
 }
